@@ -164,8 +164,11 @@ class SolveLoop:
                         a = defs[-1].stmt.value
                 if U(ff.resolved(st, a)).endswith(".z"):
                     out["path"] = recv
-                elif isinstance(a, ast.BinOp) and isinstance(a.op, ast.Add) and f"{recv}[-1]" in (U(a.left), U(a.right)):
-                    out["times"] = recv
+                elif isinstance(a, ast.BinOp) and isinstance(a.op, ast.Add):
+                    sides = (U(a.left), U(a.right), U(ff.resolved(st, a.left)), U(ff.resolved(st, a.right)))
+                    import re as _re
+                    if f"{recv}[-1]" in sides or any(t.endswith("[-1]") and _re.search(r"\b" + _re.escape(recv) + r"\b", t) for t in sides):
+                        out["times"] = recv
         # accumulated path length: the numerator of the distance factor
         out["path_dist"] = None
         if len(res) == 1:
